@@ -3,7 +3,8 @@ in order, without loss.
 
 1. TLC model-checks the code-shaped PlayQueueImpl.tla (c.mu respected): invariants hold.
 2. TLC on the lock-agnostic variant must violate NoStranded (packet pushed into a released
-   queue) and NoSpuriousClose (play packet reaching the encoder in config state): non-vacuity.
+   queue), NoSpuriousClose (play packet reaching the encoder in config state) and NoOvertake
+   (a packet written between the encoder switch and the release of the queue): non-vacuity.
    The same variant exports every gate-point interleaving as a schedule.
 3. The Go harness forces each schedule on a real netmc.MinecraftConn over a net.Pipe whose far
    end decodes the byte stream by hand, plus deterministic scenarios (immediate config packets,
@@ -38,7 +39,7 @@ META = {
     "technique": "TLA+ spec + TLC schedule enumeration, forced replay on real code, TLC trace validation",
 }
 
-NEED_GATES = ["pq.readptr", "pq.queued", "pq.written", "pq.activate", "pq.release"]
+NEED_GATES = ["pq.readptr", "pq.release.begin", "pq.queued", "pq.written", "pq.activate", "pq.release"]
 
 
 def split_runs(recs):
@@ -92,7 +93,34 @@ def classify(run):
                 return "lost:%s-write-overlaps-%s" % (c["kind"], overlap(c, r))
     if len(set(wire)) != len(wire):
         return "duplicated"
-    return "order-or-other:" + mode
+    # everything arrived once: the order is wrong.  Name the packet that came too early.
+    return "reordered:" + early_packet(run, writes, overlap)
+
+
+def early_packet(run, writes, overlap):
+    """the first delivered packet whose write began after the write of a later delivered packet of the
+    same kind had returned (it overtook it)"""
+    wire = [r["pkt"] for r in run if r["ev"] == "wire"]
+    by = {c["pkt"]: (c, r) for c, r in writes}
+    for i, p in enumerate(wire):
+        for q in wire[i + 1:]:
+            if p in by and q in by and by[q][1]["seq"] < by[p][0]["seq"]:
+                return "%s-write-overlaps-%s-overtakes-%s" % (by[p][0]["kind"], overlap(*by[p]), by[q][0]["kind"])
+    return "other"
+
+
+def in_release_window(s):
+    """a whole write (both segments of one writer) lies between the two segments of the leave, and
+    a whole write lies between the enter and the leave: the narrowest window of the property"""
+    sc = s["sched"]
+    pos = [i for i, t in enumerate(sc) if t == "s"]
+    if len(pos) < 3:
+        return False
+
+    def whole_write(a, b):
+        seg = sc[a + 1:b]
+        return any(seg.count(w) >= 2 for w in set(seg))
+    return whole_write(pos[-2], pos[-1]) and whole_write(pos[0], pos[-2])
 
 
 def gate_races(out):
@@ -165,9 +193,8 @@ def run(ctx):
     ctx.log("PlayQueueImpl.tla (c.mu respected): %d distinct states, invariants hold" % r.distinct)
     r = ctx.tlc("PlayQueueImpl", "PlayQueueImpl_unlocked.cfg", allow_violation=True, count=False,
                 extra=["-continue"])
-    nonvac = [inv for inv in ("NoStranded", "NoSpuriousClose", "NoLossNoDup")
-              if "Invariant %s is violated" % inv in r.out]
-    if "NoStranded" not in nonvac or "NoSpuriousClose" not in nonvac:
+    nonvac = sorted(set(re.findall(r"(?:Invariant|Action property) (\S+) is violated", r.out)))
+    if not {"NoStranded", "NoSpuriousClose", "NoOvertake"} <= set(nonvac):
         raise vlib.ToolError("lock-agnostic PlayQueueImpl violates only %s: invariants vacuous" % nonvac)
     ctx.log("PlayQueueImpl.tla (lock ignored): violates %s (non-vacuity ok)" % ", ".join(nonvac))
 
@@ -176,7 +203,11 @@ def run(ctx):
     n_enum = len(base)
     rnd.shuffle(base)
     if ctx.quick:
-        scheds = base[:220]
+        # seeded sample; half of it from the schedules in which a writer runs between the two
+        # segments of the leave (encoder switched / queue released), the narrowest window
+        inside = [s for s in base if in_release_window(s)]
+        rest = [s for s in base if not in_release_window(s)]
+        scheds = inside[:110] + rest[:110]
         big = ctx.tlc("PlayQueueImpl", "PlayQueueImpl_sched22.cfg", workers=1, count=False,
                       simulate=40, depth=14).printed_json("SCHED")
     else:
